@@ -168,7 +168,7 @@ Qed.
 (** ** the theorem: on a complete run (the end has been reported, nothing is pending, nobody skipped or
     panicked), whatever mix of loops and direct pulls delivered the elements, folding what each thread was
     handed and combining the per-thread results is the sequential fold of the source *)
-Theorem fold_combination : forall e, src_env e -> forall progs, wf_progs progs -> forall sched,
+Theorem fold_combination : forall e, src_env e -> fused e -> forall progs, wf_progs progs -> forall sched,
   nowrap (c_labels (exec e (init progs) sched)) ->
   let tr := c_trace (exec e (init progs) sched) in
   let L := nodup Nat.eq_dec sched in
@@ -179,8 +179,8 @@ Theorem fold_combination : forall e, src_env e -> forall progs, wf_progs progs -
   mfold M op unit_ (map (fun t => mfold M op unit_ (map f (positions_of (cov_of e t tr)))) L) =
   mfold M op unit_ (map f (source_positions (e_len e))).
 Proof.
-  intros e He progs Hp sched Hnw tr L Hclean Hend Hq M op unit_ f Ha Hc Hu.
-  pose proof (all_C01 e He progs Hp sched Hnw) as H1. fold tr in H1.
+  intros e He Hfu progs Hp sched Hnw tr L Hclean Hend Hq M op unit_ f Ha Hc Hu.
+  pose proof (all_C01 e He Hfu progs Hp sched Hnw) as H1. fold tr in H1.
   cbn [check_prop] in H1. rewrite Hclean in H1. apply andb_true_iff in H1. destruct H1 as [_ Hnl].
   unfold chk_C01_noloss in Hnl. rewrite Hend, Hq in Hnl. cbn [Z.eqb andb] in Hnl.
   pose proof (tiles_permutation _ _ Hnl) as Pt.
